@@ -51,6 +51,9 @@ struct Model {
     status: Status,
     /// the end was reported by an operation that returned with the stop flag clear
     genuinely_exhausted: bool,
+    /// the end was reported at all (None, `No more.`, a solve_all list without the time-out
+    /// line), with the stop flag clear or set
+    reported_end: bool,
     /// an older query instance was stepped after this one was built: two interleaved
     /// searches, which is outside "queries that ran before" — no longer judged for C22/C23
     disturbed: bool,
@@ -148,7 +151,7 @@ pub fn judge(property: &str, scn: &Scenario, rec: &RunRecord) -> Judgement {
                 if o.flag_before {
                     bump(&mut cnt, "stale_flag_at_construction");
                 }
-                models.insert(*h, Model { q: *q, version, pos: 0, status: Status::Live, genuinely_exhausted: false, disturbed: false });
+                models.insert(*h, Model { q: *q, version, pos: 0, status: Status::Live, genuinely_exhausted: false, reported_end: false, disturbed: false });
                 current = Some(*h);
             }
             Op::Drop { h } => {
@@ -160,6 +163,24 @@ pub fn judge(property: &str, scn: &Scenario, rec: &RunRecord) -> Judgement {
                 }
             }
             Op::Idle { .. } => {}
+            Op::Stop { after } => {
+                if o.result == OpResult::Stopped {
+                    if *after == 0 {
+                        bump(&mut cnt, "user_stop_between_operations");
+                        // what the current instance answers from now on is what a halted search
+                        // gives: not judged against the baseline any more
+                        if let Some(c) = current {
+                            if let Some(m) = models.get_mut(&c) {
+                                if m.status == Status::Live {
+                                    m.status = Status::Tainted;
+                                }
+                            }
+                        }
+                    } else {
+                        bump(&mut cnt, "user_stop_armed");
+                    }
+                }
+            }
             Op::Next { h } | Op::Solve { h } | Op::SolveAll { h } => {
                 if o.result == OpResult::Skipped {
                     continue;
@@ -191,13 +212,25 @@ pub fn judge(property: &str, scn: &Scenario, rec: &RunRecord) -> Judgement {
                     bump(&mut cnt, "reask_after_exhaustion");
                 }
                 // C22/C23 judge the current, untainted instance only (see DESIGN.md 3.4)
-                let judged = is_current && m.status != Status::Tainted && !m.disturbed;
+                if o.user_stop {
+                    bump(&mut cnt, "user_stop_during_search");
+                }
+                let judged = is_current && m.status != Status::Tainted && !m.disturbed && !o.user_stop;
+                if o.user_stop && m.status == Status::Live {
+                    // from the stop on, the instance answers what a halted search gives
+                    m.status = Status::Tainted;
+                }
                 if judged {
                     bump(&mut cnt, "judged_operations");
                 } else {
                     bump(&mut cnt, "unjudged_operations");
                 }
-                let was_exhausted = m.genuinely_exhausted;
+                // C05 holds after every report of the end, also one made while the stop flag was set
+                // (a halted search that says "no more" has said it)
+                let was_exhausted = m.genuinely_exhausted || m.reported_end;
+                if m.reported_end && !m.genuinely_exhausted {
+                    bump(&mut cnt, "reask_after_halted_end");
+                }
 
                 // ---- results that are not answers at all ----
                 match &o.result {
@@ -281,8 +314,10 @@ pub fn judge(property: &str, scn: &Scenario, rec: &RunRecord) -> Judgement {
                                 m.pos += 1;
                             }
                             None => {
+                                m.reported_end = true;
                                 if o.flag_on_return {
-                                    // a halted search, not a report of the end
+                                    // a halted search: the end has been reported (C05 holds from
+                                    // here), but not the end of the baseline's answers
                                     if m.status == Status::Live {
                                         m.status = Status::Tainted;
                                     }
@@ -307,7 +342,10 @@ pub fn judge(property: &str, scn: &Scenario, rec: &RunRecord) -> Judgement {
                         }
                         if timed_out {
                             bump(&mut cnt, "timeouts_reported");
-                            if d < LIMIT_US {
+                            if o.user_stop {
+                                // the stop button, not the limit: outside C23's statement
+                                bump(&mut cnt, "stopped_by_user_reported_as_timeout");
+                            } else if d < LIMIT_US {
                                 report("C23", "spurious_timeout", o, "an answer or No more. (the call took less than the limit)".into(), s.clone(), format!("virtual duration of the call: {} us; thunks that ran during it: {:?}; own timer: #{}", d, o.thunks, o.call_id));
                                 if judged {
                                     report("C22", "wrong_answer", o, "an answer or No more.".into(), s.clone(), format!("timed out after {} us of virtual time", d));
@@ -334,6 +372,7 @@ pub fn judge(property: &str, scn: &Scenario, rec: &RunRecord) -> Judgement {
                             }
                         }
                         if s == NO_MORE {
+                            m.reported_end = true;
                             if o.flag_on_return {
                                 if m.status == Status::Live {
                                     m.status = Status::Tainted;
@@ -361,7 +400,9 @@ pub fn judge(property: &str, scn: &Scenario, rec: &RunRecord) -> Judgement {
                         }
                         if timed_out {
                             bump(&mut cnt, "timeouts_reported");
-                            if d < LIMIT_US {
+                            if o.user_stop {
+                                bump(&mut cnt, "stopped_by_user_reported_as_timeout");
+                            } else if d < LIMIT_US {
                                 report("C23", "spurious_timeout", o, "the complete answer list (the call took less than the limit)".into(), show_list(list), format!("virtual duration of the call: {} us; thunks that ran during it: {:?}; own timer: #{}", d, o.thunks, o.call_id));
                                 if judged {
                                     report("C22", "wrong_answer", o, show_list(known_rem), show_list(list), format!("timed out after {} us of virtual time", d));
@@ -404,6 +445,7 @@ pub fn judge(property: &str, scn: &Scenario, rec: &RunRecord) -> Judgement {
                             m.status = Status::Tainted;
                         } else {
                             m.pos += body.len();
+                            m.reported_end = true;
                             if o.flag_on_return {
                                 if m.status == Status::Live {
                                     m.status = Status::Tainted;
